@@ -205,7 +205,9 @@ class Runner {
     return h.v;
   }
   // library handle for an existing model node: walk down from the root by reads
-  JsonVariant navigate(World& w, int doc, uint64_t id) {
+  // by_iteration: walk with begin()/++ and JsonPair::value() instead of operator[] (references
+  // obtained through iterators are references like any other)
+  JsonVariant navigate(World& w, int doc, uint64_t id, bool by_iteration = false) {
     JsonVariant cur = w.docs[(size_t)doc]->as<JsonVariant>();
     Val* node = &m.docs[(size_t)doc].root;
     while (node->id != id) {
@@ -213,19 +215,34 @@ class Runner {
       if (node->k == Val::Arr) {
         for (size_t i = 0; i < node->a.size(); i++)
           if (contains_id(node->a[i], id)) {
+            if (by_iteration) {
+              JsonArray arr = cur.as<JsonArray>();
+              JsonArray::iterator it = arr.begin();
+              for (size_t k = 0; k < i && it != arr.end(); k++) ++it;
+              cur = it != arr.end() ? JsonVariant(*it) : JsonVariant();
+            } else
             cur = cur[i].as<JsonVariant>();
             node = &node->a[i];
             moved = true;
             break;
           }
       } else if (node->k == Val::Obj) {
-        for (auto& kv : node->o)
+        size_t member_index = 0;
+        for (auto& kv : node->o) {
+          member_index++;
           if (contains_id(kv.second, id)) {
+            if (by_iteration) {
+              JsonObject obj = cur.as<JsonObject>();
+              JsonObject::iterator it = obj.begin();
+              for (size_t k = 1; k < member_index && it != obj.end(); k++) ++it;
+              cur = it != obj.end() ? it->value() : JsonVariant();
+            } else
             cur = cur[JsonString(kv.first.data(), kv.first.size(), JsonString::Copied)].as<JsonVariant>();
             node = &kv.second;
             moved = true;
             break;
           }
+        }
       }
       if (!moved) return JsonVariant();
     }
@@ -1176,9 +1193,11 @@ class Runner {
     if (kinds[pick] == Val::Obj && s.coin()) type = 2;
     uint64_t id = ids[pick];
     note("h" + std::to_string(m.handles.size()) + " = handle(type " + std::to_string(type) + ") to node " + std::to_string(id) + " of d" + std::to_string(doc));
+    bool by_iteration = !opt.reduced_alphabet && s.coin();
+    if (by_iteration) st.iterator_handles++;
     register_handle(doc, id, type, [&](World& w) {
       LHandle lh;
-      JsonVariant v = navigate(w, doc, id);
+      JsonVariant v = navigate(w, doc, id, by_iteration);
       if (v.isUnbound()) fail("navigation", "an existing value cannot be reached by reads");
       if (type == 0) lh.v = v;
       else if (type == 1) lh.a = v.as<JsonArray>();
